@@ -287,6 +287,27 @@ def nat_shapes(h):
                lambda: Flow(*four()[:3], delete_resource(0), four()[3], delete_resource(2)).results(), [3, 2])
     conformant(('duplicate in the middle',), lambda: Flow(*four(), duplicate('res_2', target_name='copy', target_path='copy.csv')).results(),
                [2, 3, 3, 2, 4])
+    # one computed-field specification over SEVERAL selected resources whose same-named source columns differ in type: each
+    # resource's new field is typed from that resource's own schema (and its rows validate against it)
+    from dataflows import add_computed_field
+    typed = {'integer': lambda j: j + 1, 'number': lambda j: j + 0.5, 'string': lambda j: 'v%d' % j}
+    import itertools
+    for order in itertools.permutations(['integer', 'number', 'string'], 2):
+        for op in ('sum', 'min', 'max', 'multiply', 'avg', 'join'):
+            if 'string' in order and op in ('sum', 'multiply', 'avg'):
+                continue
+            mk = lambda: [[{'v': typed[t](j), 'w': typed[t](j + 1)} for j in range(3)] for t in order]
+            cfg = ('add_computed_field over resources typed', order, op)
+            got = h.run(lambda: Flow(*mk(), add_computed_field(target='t', operation=op, source=['v', 'w'], with_='-')).results())
+            if got[0] != 'ok':
+                h.check(False, 'dataflows/processors/add_computed_field.py::add_computed_field.func', cfg, 'results() validates',
+                        (got[1], str(getattr(got[2], 'cause', got[2]))[:300]))
+                continue
+            res, dp, _ = got[1]
+            want = ['string' if op == 'join' else 'number' if (t == 'number' or op == 'avg') else t for t in order]
+            have = [[f['type'] for f in rd['schema']['fields'] if f['name'] == 't'] for rd in dp.descriptor['resources']]
+            h.check(have == [[w] for w in want] and dp.valid, 'dataflows/processors/add_computed_field.py::add_computed_field.func',
+                    cfg, want, have)
     for mode, want in (('inner', [2]), ('half-outer', [3]), ('full-outer', [5])):
         src = [{'city_id': i, 'pop': 10 * i} for i in (1, 2, 8, 9)]
         tgt = [{'id': 1, 'n': 'a'}, {'id': 2, 'n': 'b'}, {'id': 3, 'n': 'c'}]
